@@ -84,7 +84,7 @@ def run_tlc(ctx, module_path, cfg_text=None, cfg_path=None, env=None, workers=No
         m = re.search(r"The number of states generated: (\d[\d,]*)", out)
         if m:
             res["states"] = res["distinct"] = int(m.group(1).replace(",", ""))
-    m = re.search(r"Error: (The invariant of \S+ is equal to FALSE|Assumption [^\n]* is false|Invariant (\S+) is violated|Action property (\S+) is violated|Temporal properties were violated|Deadlock reached|The first argument of Assert evaluated to FALSE[^\n]*|Assertion failed[^\n]*)", out)
+    m = re.search(r"Error: (The invariant of \S+ is equal to FALSE|Assumption [^\n]* is false|Invariant (\S+) is violated|Action property (\S+) is violated|Temporal properties were violated|Temporal property \S+ was violated|Deadlock reached|The first argument of Assert evaluated to FALSE[^\n]*|Assertion failed[^\n]*)", out)
     if m:
         res["violation"] = m.group(1)
     elif r.returncode == 124:
